@@ -32,7 +32,7 @@ class C06(BaseCheck):
           'traffic (K outstanding requests held by completing one and issuing one every delta for >= 60 '
           'virtual s) separated by disturbances (member down/up, join/leave, bursts). Safety after every '
           'op: active/idle partition of the server set, contraction floor (and: never below the floor while idle members remain, whatever happened), load-driven growth cap, '
-          'published gauges == set sizes. Bounded progress per healthy steady phase: every size seen in '
+          'published gauges == set sizes; hook on _AdjustAperture: an event that finds smoothed load / size >= max_load with idle members and size < max_size returns with a larger active set. Bounded progress per healthy steady phase: every size seen in '
           'the last third lies in the interval implied by the band and a harness-side reference EMA. '
           'non-trivial = at least one steady phase judged or one contraction/expansion observed; distinct '
           'by (config, #members bucket, phase outcome classes, events mixed in)')
@@ -94,6 +94,22 @@ class C06(BaseCheck):
       return rng.choice([0.0, 0.02]), rng.random() > 0.2
     w = make_world(env, rng, 'aperture', params, open_delay)
     lb, ss = w.lb, w.ss
+    # invariant at a hook: a request event at which the smoothed load per active member (the
+    # balancer's own average, the size the event found) is at or above max_load, with idle members
+    # to draw from and the size below max_size, must have grown the active set when it returns
+    growth_misses = []
+    orig_adjust = lb._AdjustAperture
+
+    def adjust_hook(amount):
+      size0, idle0 = lb._size, len(lb._idle_endpoints)
+      r_ = orig_adjust(amount)
+      stats['adjust_events'] = stats.get('adjust_events', 0) + 1
+      if size0 > 0 and idle0 and size0 < mx and lb._ema.value / size0 >= hi_load * (1 + 1e-9):
+        stats['growth_events'] = stats.get('growth_events', 0) + 1
+        if lb._size <= size0:
+          growth_misses.append((size0, idle0, lb._ema.value, len(lb._pending_endpoints)))
+      return r_
+    lb._AdjustAperture = adjust_hook
     pool = [Endpoint('a%02d' % i, 7100 + i) for i in range(20)]
     for ep in pool[:nmem]:
       ss.truth[ep] = Member(ep)
@@ -373,6 +389,14 @@ class C06(BaseCheck):
              {'K': K, 'delta': delta, 'order': order, 'sizes': seen[-20:], 'per_member_load': per_member})
       if len(out.violations) >= 6:
         break
+    out.obligations += 1
+    if growth_misses:
+      g0 = growth_misses[0]
+      viol('growth-stalled', '%d request event(s) found the smoothed load per active member at or above max_load=%.2f '
+           '(first: %.3f outstanding over %d active) with %d idle member(s) and size below max_size=%s, and the active '
+           'set did not grow (%d member(s) were still opening)' % (
+             len(growth_misses), hi_load, g0[2], g0[0], g0[1], mx if mx < 2 ** 31 else 'inf', g0[3]),
+           {'pending': g0[3] > 0})
     # ---------------------------------------------------------------- drain
     for r in list(live):
       w.complete(r, 'reply')
